@@ -401,7 +401,7 @@ func ruleAnswers(r *Run) {
 				}
 				want := ""
 				if hi.Respond != nil {
-					want = "param:" + hi.Respond.Name()
+					want = fmt.Sprintf("param:#%d", paramIndex(hi.Fn, hi.Respond))
 				}
 				r.CheckT("B6", fmt.Sprintf("%s:send[%s]", fn.Name, a.Lit.TypeConstNameOr(a.Kind)), rc == want && want != "", a.Ev.Pos, path,
 					"answer is sent through %q, expected the handler's own respond parameter", rc)
@@ -452,7 +452,7 @@ func ruleAnswers(r *Run) {
 					if idx != nil {
 						got = r.P.Canon(a.Lit.Fn, idx)
 					}
-					want := "var:" + hi.ReqVar.Name() + ".RequestId"
+					want := "var:req.RequestId"
 					r.CheckT("B2", asite, got == want, a.Ev.Pos, path, "RequestId of the answer is %q, expected the request's own id %q", got, want)
 				}
 				switch a.Kind {
